@@ -23,7 +23,7 @@ ASSUMPTIONS = ["termination restated as a step budget of 2e5 + 2e3*len(text) lin
                "texts declaring registers larger than 6 qubits, or whose loops unroll to more than 20000 statement executions, are parsed but not executed (resource use proportional to the program, not termination)",
                "ImportError is accepted only when the program names a pulse module and pulses are auto-loaded"]
 TIERS = {"quick": {"shards": 8, "budget_s": 100}, "thorough": {"shards": 16, "budget_s": 480}}
-REQUIRE = {"import-layout-histories": 30, "alternating-twin-parses": 400, "class:deep-nesting-from-deep-stack": 40, "hang-probes": 15, "calls": 20000, "class:random": 1000, "class:truncation": 2000, "class:mutant": 2000, "class:template": 200,
+REQUIRE = {"entry:runstr": 1500, "import-layout-histories": 30, "alternating-twin-parses": 400, "class:deep-nesting-from-deep-stack": 40, "hang-probes": 15, "calls": 20000, "class:random": 1000, "class:truncation": 2000, "class:mutant": 2000, "class:template": 200,
            "outcome:JaqalParseError": 2000, "outcome:JaqalError": 500, "outcome:ok": 500, "position-checked": 2000,
            "histories": 8, "history-steps": 300, "fresh-single-text-runs": 8, "illegal-character-texts": 200,
            "relative-import-probes": 1}
@@ -35,7 +35,15 @@ ALPH = (["register", "map", "let", "macro", "loop", "from", "usepulses", "subcir
         + ["//", "/*", "*/", "/", "#", "@", "$", "%", "^", "&", "(", ")", "=", "!", "?", "\"", "'", "`", "~", "\\", "\r", "\0",
            "é", "π", "☃", "\x7f"])
 
-TEMPLATES = [
+# things that are no registers, aliased and indexed in every way the grammar allows
+NON_REGISTERS = [("let-int", "let s 1\nregister q[2]\n"), ("let-float", "let s 0.5\nregister q[2]\n"),
+                 ("single-qubit-alias", "register q[2]\nmap s q[0]\n"), ("macro", "register q[2]\nmacro s a { X a }\n"),
+                 ("undefined", "register q[2]\n"), ("alias-of-single-qubit-alias", "register q[2]\nmap one q[1]\nmap s one\n")]
+NON_REGISTER_USES = ["map b s\n", "map b s[0]\n", "map b s[0:1]\n", "map b s[1:]\n", "map b s[:]\n", "map b s[::2]\n", "map b s[:1]\n",
+                     "map b s[0:1:1]\n", "map b s[1::-1]\n", "map b s\nX b[0]\n", "map b s[0:]\nprepare_all\nX b[0]\nmeasure_all\n",
+                     "X s[0]\n", "prepare_all\nX s[0:1]\nmeasure_all\n", "macro m r { X r[0] }\nm s\n"]
+
+TEMPLATES = [hdr + use for _tag, hdr in NON_REGISTERS for use in NON_REGISTER_USES] + [
     # literals whose magnitude overflows a float, both signs, in every role a number can play
     "register q[1]\nprepare_all\nRx q[0] -1.0e999\nmeasure_all\n",
     "register q[1]\nprepare_all\nRx q[0] -.5e400\nmeasure_all\n",
@@ -167,6 +175,9 @@ def call(entry, text, flags=None, budget=None):
         if isinstance(c, tuple):
             c = c[0]
         state["circuit"] = c
+        if entry == "runstr":
+            # the text-level execution entry point; the program names its gates itself (one line in front of the text)
+            return run_part(c, text_entry=True)
         if entry == "run" and flags.get("stack"):
             # parsed by a caller near the top of the stack, run by one much further down
             return deeper(int(flags["stack"]), lambda: run_part(c))
@@ -175,7 +186,7 @@ def call(entry, text, flags=None, budget=None):
     def deeper(k, fn):
         return fn() if k <= 0 else deeper(k - 1, fn)
 
-    def run_part(c):
+    def run_part(c, text_entry=False):
         if True:
             regs = [r for r in c.registers.values() if getattr(r, "fundamental", False)]
             size = None
@@ -199,6 +210,8 @@ def call(entry, text, flags=None, budget=None):
 
             numpy.random.seed(7)
             state["ran"] = True
+            if text_entry:
+                return lib._m("jaqalpaq.run.run").run_jaqal_string(X.PULSE_LINE + text)
             return lib.run(c)
         return c
 
@@ -212,6 +225,8 @@ def call(entry, text, flags=None, budget=None):
         return ("budget", None, None), info
     ex = v
     if isinstance(ex, JaqalParseError):
+        if entry == "runstr" and state.get("ran") and isinstance(ex.line, int):
+            return ("JaqalParseError", (ex.line - 1, ex.column), str(ex)), info  # one line was put in front of the text
         return ("JaqalParseError", (ex.line, ex.column), str(ex)), info
     if isinstance(ex, JaqalError):
         return ("JaqalError", None, str(ex)), info
@@ -311,7 +326,7 @@ def judge(case):
         fails.append(("wrong-exception:%s:%s:%s" % (kind[6:], stage, msg_class(out[2])),
                       {"error": out[2], "text": text[:400], "flags": flags, "where": info.get("where"), "stack_depth": info.get("stack_depth")}))
     elif kind == "ImportError":
-        if not (flags.get("autoload") and uses_pulse_import(text)):
+        if not ((flags.get("autoload") or entry == "runstr") and uses_pulse_import(text)):  # run_jaqal_string always loads
             fails.append(("unexpected-ImportError:" + msg_class(out[2]), {"error": out[2], "text": text[:300]}))
     elif kind == "JaqalParseError":
         info["pos_checked"] = True
@@ -371,6 +386,8 @@ def entries_for(rng, text):
     out.append(("run", {"native": True}))
     if rng.random() < 0.2:
         out.append(("run", {}))  # a circuit parsed without any gate set handed to the emulator
+    if rng.random() < 0.3:
+        out.append(("runstr", {"native": True}))  # run_jaqal_string: text in, result or error out
     return out
 
 
